@@ -686,6 +686,13 @@ func (d *driver) runMultiproof(w emitter, pid int, pr *proofProg) {
 			}
 			verify(k+1, pt, lbl, pf, cs, yv, zv)
 		}
+		if len(pr.Perturb) > 0 {
+			// after all that: a verification that errors in the IPA stage, then the honest statement once more (the verdict must not depend on history)
+			bad := cloneProof(proof)
+			bad.IPA.L = bad.IPA.L[:7]
+			verify(len(pr.Perturb)+1, perturbSpec{What: "lenL", To: "short"}, label, bad, Cs, ys, zs)
+			verify(len(pr.Perturb)+2, perturbSpec{What: "none"}, label, proof, Cs, ys, zs)
+		}
 	}
 	round()
 	// second round on the SAME objects: one polynomial is changed in place, its commitment is recomputed into the same Element
